@@ -6,10 +6,12 @@ ROOT = Path(__file__).resolve().parent.parent
 props = [json.loads(l) for l in (ROOT / "properties.jsonl").read_text().splitlines() if l.strip()]
 checks, na = [], []
 NA_REASONS = {}
+# only checks the lead has integrated and seen green on the clean tree are claimed
+READY = (ROOT / "harness" / "READY").read_text().split()
 for p in props:
     pid = p["id"]
     f = ROOT / "harness" / "props" / f"{pid.lower()}.py"
-    if not f.exists():
+    if not f.exists() or pid not in READY:
         na.append({"property_id": pid, "reason": NA_REASONS.get(pid, "check not built yet (work in progress; the design in DESIGN.md section 6 applies) - not claimed")})
         continue
     m = importlib.import_module("props." + pid.lower())
